@@ -58,18 +58,14 @@ def is_needed_len(s):
 def writer_slots(rt, ctor_suffix):
     """functions installed in the `grow` / `flush` slots of the DiplomatWrite a constructor builds (resolved through the aggregate's fn pointers)"""
     f = rt.fn(ctor_suffix)
-    mf = MirFn(f)
     out = {}
-    for b in mf.mir["blocks"]:
-        for s_ in b["stmts"]:
-            if s_["k"] == "assign" and s_["rv"]["k"] == "agg" and (s_["rv"].get("adt") or "").endswith("::DiplomatWrite"):
-                fields = dict(zip(s_["rv"]["fnames"], [mf.sym_op(o) for o in s_["rv"]["ops"]]))
-                for slot in ("grow", "flush"):
-                    x = sym_strip(fields.get(slot))
-                    while isinstance(x, tuple) and x[0] in ("cast", "ptrcast"):
-                        x = x[2] if x[0] == "cast" else x[1]
-                    if isinstance(x, tuple) and x[0] == "fn" and x[1] in rt.fns:
-                        out[slot] = rt.fns[x[1]]
+    for _, _, fields in C.ctor_aggs(rt, f, "::DiplomatWrite"):
+        for slot in ("grow", "flush"):
+            x = sym_strip(fields.get(slot))
+            while isinstance(x, tuple) and x[0] in ("cast", "ptrcast"):
+                x = x[2] if x[0] == "cast" else x[1]
+            if isinstance(x, tuple) and x[0] == "fn" and x[1] in rt.fns:
+                out[slot] = rt.fns[x[1]]
     return out
 
 
@@ -374,16 +370,12 @@ def run(ck, facts):
 
     # --- R6 fixed writer
     f = rt.fn("diplomat_simple_write")
-    mf = MirFn(f)
-    agg = None
-    for b in mf.mir["blocks"]:
-        for s in b["stmts"]:
-            if s["k"] == "assign" and s["rv"]["k"] == "agg" and (s["rv"].get("adt") or "").endswith("::DiplomatWrite"):
-                agg = s
+    aggs = C.ctor_aggs(rt, f, "::DiplomatWrite")
+    agg = aggs[-1][1] if aggs else None
     if not agg:
         ck.bad("R6", "diplomat_simple_write/ctor", "no DiplomatWrite construction found", C.loc(f))
     else:
-        fields = dict(zip(agg["rv"]["fnames"], [mf.sym_op(o) for o in agg["rv"]["ops"]]))
+        fields = aggs[-1][2]
         cap = sym_strip(fields.get("cap"))
         ok_cap = isinstance(cap, tuple) and cap[0] == "bin" and cap[1] in ("Sub",) and sym_is_arg(cap[2], 2) and cap[3] == ("const", "1_usize")
         ck.expect(ok_cap, "R6", "diplomat_simple_write/cap", "cap = " + sym_show(cap), "cap is %s, expected buf_size - 1 (one byte reserved for the NUL)" % sym_show(cap), C.loc(f, agg.get("ln")))
